@@ -69,6 +69,9 @@ def describe(e):
     else:
         key = "%s n=%s bin=%s bkey=%s bout=%s rin=%s rout=%s dsize=%s" % (e["op"], e.get("n"), e.get("bin"), e.get("bkey"), e.get("bout"), e.get("rin"), e.get("rout"), e.get("dsize"))
         key += " xin=%d xout=%d" % (int(e.get("bin") != e.get("bkey")), int(e.get("bout") != e.get("bkey")))
+        if e.get("ev") == "ggsw":
+            da, dr = e.get("dnum_a", 0), e.get("dnum_r", 0)
+            key += " rows=" + ("fewer" if dr < da else "more" if dr > da else "same")
     if odd:
         key += " odd=" + ",".join(odd)
     if panics:
@@ -88,7 +91,7 @@ def report(rep, events, bad, kinds, corpus):
         if key in seen:
             continue
         seen.add(key)
-        small = {k: e[k] for k in e if k not in ("outs", "key", "scr")}
+        small = {k: e[k] for k in e if k not in ("outs", "key", "tsk", "scr")}
         small["outs"] = e.get("outs", [])[:2]
         if kind == "scr":
             small["scr"] = e.get("scr", [])[:1]
